@@ -294,6 +294,17 @@ def c02_cases(ctx, sink_variants=True):
                 ctx.add("M%d" % k, ["in %s" % hx(data), "cparams %d %d 0 15" % (fmt, level),
                                     "cdrive @ %d:200000:0,100000000:200000:4" % (32768 * laps + j)],
                         kind="stream", data=data, fmt=fmt, level=level, strat=0, wb=15, sink=0)
+    # the flushing call's input ends exactly where the compressor closes a block by itself (31745 incompressible bytes)
+    # while the output buffer is smaller than that block
+    for level in (0, 2, 6):
+        for nn in (31745, 63490):
+            for fl in (2, 3, 4):
+                data = rng.bytes(nn)
+                fmt = rng.choice([0, 2])
+                k += 1
+                ctx.add("B%d" % k, ["in %s" % hx(data), "cparams %d %d 0 15" % (fmt, level),
+                                    "cdrive @ 100000000:%d:%d,0:1000:%d,0:100000:%d,100000000:200000:4" % (rng.choice([100, 1000]), fl, fl, fl)],
+                        kind="stream", data=data, fmt=fmt, level=level, strat=0, wb=15, sink=0)
     # exhaustive small schedules on three short inputs
     depth = 3       # 45^3 sequences when exhaustive (thorough)
     alpha = [(c, o, f) for c in (0, 1, 1000) for o in (1, 5, 100000) for f in (0, 2, 3, 4, 7)]
@@ -576,6 +587,15 @@ def c11_cases(ctx):
                 ctx.add("w%d" % k, ops, kind="win", data=data, fmt=0, level=level, strat=strat, wb=wb, dist=dist)
     # histories: the settings are changed after construction (the declared window must stay the one fixed at construction
     # unless the change is refused); implementation only
+    # a second stream after reset(): the window fixed at construction still binds header and distances
+    for wb in range(8, 15):
+        for l0 in ([1, 6] if ctx.tier == "quick" else [0, 1, 2, 6, 9]):
+            lim = 1 << max(wb, 8)
+            dist = max(1, min(32768, rng.choice([lim + 1, lim + rng.range(1, 1000), 2 * lim, 32768])))
+            data = far_repeat_data(rng, dist, 3 * dist + rng.range(0, 100))
+            ops = ["in %s" % hx(data), "cparams 0 %d 0 %d" % (l0, wb), "cdrive @ 100000000:200000:4", "creset", "cdrive @ 100000000:200000:4"]
+            k += 1
+            ctx.add("r%d" % k, ops, model=False, kind="win", data=data, fmt=0, level=l0, strat=0, wb=wb, dist=dist)
     for wb in range(8, 15):
         for how in ("csetfmt 1 %d", "csetfmt 0 %d", "csetlevel %d"):
             for l1 in ([2, 6, 9] if ctx.tier == "quick" else range(0, 11)):
@@ -683,6 +703,25 @@ def c12_cases(ctx):
                                "cdrive @ %d:100000:%d,100000000:200000:4" % (kk, fl)]
                         k += 1
                         ctx.add("g%d" % k, ops, model=False, kind="flush", data=data, fmt=2, level=level, strat=strat, wb=15)
+    # a flush whose output needs several calls to drain (tiny output buffers), then data repeating what came before it
+    for level in (0, 1, 2, 6, 9):
+        for di, data in enumerate(shapes[:3] + [rng.bytes(1500) * 2]):
+            for fl in (3, 2):
+                for osz in (1, 7, 40):
+                    kk = len(data) // 2
+                    ops = ["in %s" % hx(data), "cparams 2 %d 0 15" % level,
+                           "cdrive @ %d:%d:%d,0:%d:%d,0:100000:%d,100000000:200000:4" % (kk, osz, fl, osz, fl, fl)]
+                    k += 1
+                    ctx.add("d%d" % k, ops, model=(level == 0), kind="flush", data=data, fmt=2, level=level, strat=0, wb=15)
+    # the flushing call's input ends exactly where the compressor closes a block of its own accord (31745 incompressible
+    # bytes) and the output buffer cannot take that block: nothing of it may be lost
+    for level in (0, 2, 6):
+        for n in (31744, 31745, 31746, 63490):
+            for fl in (2, 3):
+                data = rng.bytes(n)
+                ops = ["in %s" % hx(data), "cparams 2 %d 0 15" % level, "cdrive @ 100000000:%d:%d,0:1000:%d,0:100000:%d,0:100000:%d,100000000:200000:4" % (rng.choice([100, 1000]), fl, fl, fl, fl)]
+                k += 1
+                ctx.add("e%d" % k, ops, model=(level == 0), kind="flush", data=data, fmt=2, level=level, strat=0, wb=15)
     # no-sync then sync == sync alone
     for i in range(20 if ctx.tier == "quick" else 100):
         level = rng.choice([0, 1, 6, 9])
@@ -715,11 +754,15 @@ def c12_eval(ctx):
             hdr = 2 if m["fmt"] != 2 else 0
             pre = body[:2 * (out_len - hdr)] if out_len >= hdr else ""
             ql.append("sprefix %s" % (pre if pre else "-"))
-            if fl == 3 and m["fmt"] == 2:
+            if fl % 10 == 3 and m["fmt"] == 2:
                 ql.append("sinflate 0 %s" % (body[2 * out_len:] or "-"))
             m["marks"].append((fl, in_off, out_len))
         q.append((cid, ql))
     orc = oracle_run(ctx, q, "fl")
+    whole = spec_of_outputs(ctx, [(cid, ctx.meta[cid]["fmt"] != 2, parse_fields(ctx.impl.get((cid, 3), ("", ""))[1]).get("full", "-"))
+                                  for cid, ops in ctx.cases if ctx.meta[cid]["kind"] == "flush"
+                                  and parse_fields(ctx.impl.get((cid, 3), ("", ""))[1]).get("st") == "1"
+                                  and len(parse_fields(ctx.impl.get((cid, 3), ("", ""))[1]).get("full", "-")) < 400000])
     nmarks = 0
     for cid, ops in ctx.cases:
         m = ctx.meta[cid]
@@ -728,11 +771,28 @@ def c12_eval(ctx):
             f = parse_fields(ctx.impl.get((cid, 3), ("", ""))[1])
             if f.get("st") != "1":
                 bad = "schedule did not finish: %s" % str(f)[:100]
+            elif cid in whole and (whole[cid]["verdict"] != "done" or whole[cid].get("o") != core_show(m["data"][:int(f.get("in", 0))])):
+                bad = "the finished stream does not decode to the %s input bytes consumed: reference decoder says %s len=%s" % (
+                    f.get("in"), whole[cid]["verdict"] + " " + whole[cid].get("ekind", ""), whole[cid].get("len"))
             qi = 0
             for (fl, in_off, out_len) in m.get("marks", []):
                 nmarks += 1
                 qi += 1
                 p = parse_fields(orc.get((cid, qi), ("", "missing"))[1])
+                if fl >= 10:
+                    # the flush call ran out of output space and later calls drained it: whether the flush had been carried
+                    # out by then is not the caller's to know; only if the prefix does end with the marker after all input
+                    # so far is the history clause of a full flush judged
+                    fl -= 10
+                    at_marker = (p.get("clean") == "1" and p.get("lastsync") == "1" and p.get("o") == core_show(m["data"][:in_off]))
+                    if fl == 3 and m["fmt"] == 2:
+                        qi += 1
+                        if at_marker:
+                            s = parse_fields(orc.get((cid, qi), ("", "missing"))[1])
+                            if not s["_"] or s["_"][0] != "done" or s.get("o") != core_show(m["data"][in_off:int(f.get("in", len(m["data"])))]):
+                                bad = "remainder after a full flush (drained over several calls) is not decodable on its own (%s): a later match refers to data before the flush" % (s["_"][:2],)
+                                break
+                    continue
                 if p["_"] and p["_"][0] == "baddist":
                     bad = "prefix at flush point has a match reaching before its start"
                 elif p.get("clean") != "1":
@@ -831,10 +891,33 @@ def c14_cases(ctx):
                "dfcall - 10 4", "dfcall - 10 0", "dfcall - 0 4"]
         k += 1
         ctx.add("d%d" % k, ops, kind="drv", data=data, level=level)
+    # the flushing call's input ends exactly where the compressor closes a block by itself and the output buffer is smaller
+    # than that block
+    for level in (0, 2, 6):
+        for nn in (31744, 31745, 31746, 63490):
+            for fl in (2, 3, 4):
+                data = rng.bytes(nn)
+                ops = ["in %s" % hx(data), "cparams 0 %d 0 15" % level,
+                       "dfdrive @ 100000000:%d:%d,0:1000:%d,0:100000:%d,100000000:200000:4" % (rng.choice([100, 1000]), fl, fl, fl),
+                       "dfcall - 10 4", "dfcall - 10 0", "dfcall - 0 4"]
+                k += 1
+                ctx.add("b%d" % k, ops, model=(level == 0), kind="drv", data=data, level=level)
 
 
 def c14_eval(ctx):
     fails = []
+    # what a finished driver loop has produced must decode to what it consumed (reference decoder)
+    drv = [(cid, True, parse_fields(ctx.impl.get((cid, 3), ("", ""))[1]).get("full", "-")) for cid, ops in ctx.cases
+           if ctx.meta[cid]["kind"] == "drv" and parse_fields(ctx.impl.get((cid, 3), ("", ""))[1]).get("st") == "1"
+           and len(parse_fields(ctx.impl.get((cid, 3), ("", ""))[1]).get("full", "-")) < 400000]
+    whole = spec_of_outputs(ctx, drv)
+    for cid, z, full in drv:
+        m = ctx.meta[cid]
+        f = parse_fields(ctx.impl.get((cid, 3), ("", ""))[1])
+        o = whole[cid]
+        if o["verdict"] != "done" or o.get("o") != core_show(m["data"][:int(f.get("in", 0))]):
+            fails.append((cid, "debug build [level %s]: stream end reported, but what deflate() delivered does not decode to the %s bytes "
+                               "it consumed: reference decoder says %s len=%s" % (m["level"], f.get("in"), o["verdict"] + " " + o.get("ekind", ""), o.get("len"))))
     for cid, ops in ctx.cases:
         m = ctx.meta[cid]
         dlen = len(m["data"])
